@@ -25,7 +25,7 @@ def _bound(ctx, call, func, clsname):
     return q.bind_args(ctx, call, func, init) or {}
 
 
-@rule('C10.a', ['C10', 'C11', 'C16', 'C02', 'C06'], floor={'*': 12, 'C02': 1, 'C06': 1})
+@rule('C10.a', ['C10', 'C11', 'C16', 'C02', 'C06', 'C14'], floor={'*': 12, 'C02': 1, 'C06': 1, 'C14': 5})
 def wiring_table(ctx):
     """Each limit is fed by its own TransferConfig field: request executor <-
     (max_request_queue_size, max_request_concurrency), submission executor <-
@@ -44,6 +44,14 @@ def wiring_table(ctx):
         mt = b.get('max_num_threads')
         ctx.ob(f, '_io_executor.max_num_threads <- literal 1', isinstance(mt, ast.Constant) and mt.value == 1,
                f'the IO executor must have exactly one thread (ordered writes, rename after all writes), found {norm(mt)}')
+        return
+    if ctx.prop == 'C14':
+        # for the planning property only: the configuration object hands out the thresholds and sizes it was given
+        tc = ctx.func('manager.TransferConfig.__init__')
+        cl = ctx.cls('manager.TransferConfig')
+        for pname in tc.params[1:]:
+            vals = [norm(v) for fn, v in cl.init_attrs.get(pname, []) if fn is tc]
+            ctx.ob(tc, f'self.{pname} = {pname}', vals == [pname], f'config field {pname} is stored from {vals}')
         return
     table = [('_request_executor', 'max_request_queue_size', 'max_request_concurrency'),
              ('_submission_executor', 'max_submission_queue_size', 'max_submission_concurrency'),
